@@ -180,8 +180,9 @@ func oracleDNS(c DNSCase, obs []*lookupObs) []oracleFail {
 		populated := false
 		switch {
 		case ambiguous:
-			// accept either outcome; a success repopulates
-			populated = o.Err == "" && (e == nil || addrsKey(o) != e.addrs || usedBoth)
+			// accept either outcome; after a success the oracle no longer knows which TTLs the entry
+			// carries (fresh or stale): its bounds are opened completely below
+			populated = o.Err == ""
 			for _, a := range append(append([]string{}, o.A...), o.AAAA...) {
 				if !universe[a] && (e == nil || !strings.Contains(e.addrs, a)) {
 					fail("foreign-address", "lookup %d (%s): returned address %s is in no usable response to this lookup's queries", i, name, a)
